@@ -1,29 +1,72 @@
 import PySMT.Proofs.C02Model
 import PySMT.Proofs.SimpFold
 import PySMT.Proofs.C02Exact
+import PySMT.Proofs.C02Subst
+import PySMT.Proofs.C02Total
+import PySMT.Proofs.C02Array
 /-!
-# C02 — Model evaluation returns the exact value: what C01 gives, and fold completeness
+# C02 — Model evaluation returns the exact value of any ground-evaluable formula
 
-Model: `PySMT.Model.getValue` (Impl/Model.lean) = `EagerModel.get_value`
-(pysmt/solvers/eager.py:43-79): complete the assignment with the documented defaults,
-substitute the constants, simplify, return the result if it is a constant; `PySMT.Model.satisfies`
-= `Model.satisfies` (pysmt/solvers/solver.py:492-532) without solver argument.
+Two models of `EagerModel.get_value` (pysmt/solvers/eager.py:43-79) / `Model.satisfies`
+(pysmt/solvers/solver.py:492-532, no solver argument), both in Impl/Model.lean:
 
-Exactness (the property's first sentence): `ground_simp_const_partial`, `getValue_exact_partial`,
-`satisfies_iff_partial`, `completion_exact_partial`, over the interpretation `interpOf σ` an
-assignment stands for and the constant node `constOf v` of a scalar value (Proofs/C02Exact.lean).
-Soundness for partial assignments: `noCompletion_sound_partial`, `getValue_sound_partial`.
+* `getValue'` / `satisfies'` — **the code's own pipeline**: complete the assignment with the documented
+  defaults, `substituter.substitute` = `MGSubstituter` = `Subst.substMG` (the model of C05: every node that is
+  not replaced is *rebuilt* through the `FormulaManager` constructors — `Div(x, c)` → `Times(x, 1/c)`,
+  `Not(Not x)` → `x`, `ToReal(3)` → `3.0`, bit-vector payloads recomputed, `Array(...)` re-normalised), then
+  `simplify` = `Simplifier.simp` (the model of C01), then the `is_constant()` test. This is what the
+  correspondence check compares with the real code end to end (driver `Drivers/C02.lean`).
+* `getValue` / `satisfies` — the same with the symbols replaced in place (`substConst`, no rebuilding): the
+  model the first version of these theorems was proved for; `getValue'_eq_getValue_partial` shows that the two
+  return the same constant under the hypotheses of exactness.
 
-All theorems are `_partial` for the same reason as in C01: they are stated on the fragment
-`inFrag` of the simplifier model (Boolean/core, arithmetic, bit-vector, string and array families,
-with the guards listed in Props/C01.lean) and on quantifier-free formulas `qf` (the
-property's domain: ground-evaluable formulas) with scalar constants assigned to symbols
-(`AsgOK`; array-valued assignments are outside the fragment). `fold_complete_partial` (all
-arguments constants ⇒ every rule returns a constant: the part of C02 that C01 does not give)
-is proved for every rule of these families (`FoldOK`, Proofs/SimpFold.lean, Proofs/SimpBVFold.lean,
-Proofs/SimpStr.lean) except `arrayValue`: a constant array value is not a scalar constant, so terms
-containing array values are outside `ground` (for `arraySelect` / `arrayStore` the statement holds
-vacuously: no scalar constant has an array sort).
+Theorems (each for both models unless said otherwise; `'` = the code's pipeline):
+
+* exactness (the property's first sentence), scalar sorts, result `constOf (eval (interpOf σ) f)`:
+  `getValue_exact_partial` / `getValue'_exact_partial`, `satisfies_iff_partial` / `satisfies'_iff_partial`,
+  `completion_exact_partial` / `completion'_exact_partial`, `satisfies_completion_partial` /
+  `satisfies'_completion_partial` (partial assignment + completion), `ground_simp_const_partial`;
+* soundness for partial assignments (the property's last sentence): `noCompletion_sound_partial` /
+  `noCompletion'_sound_partial`, `getValue_sound_partial` / `getValue'_sound_partial`;
+* without the per-formula division-by-zero proviso (`interpOf σ` maps `x / 0` to 0, so
+  `C01.simp_sound_total_partial` applies; covers guarded divisions `ite(r = 0, 0, 1/r)`): whatever constant is
+  returned is the exact one, and a raise implies a `div` node with zero divisor —
+  `getValue_exact_nodiv_partial` / `getValue'_exact_nodiv_partial`, `satisfies_sound_nodiv_partial` /
+  `satisfies'_sound_nodiv_partial`, `completion_exact_nodiv_partial`, `noCompletion'_sound_nodiv_partial`.
+  That `get_value` *does answer* on a formula with a division by zero in an untaken branch is not proved
+  (fold completeness is proved under `div0 = false` only);
+* **the array family** (`'` only): assignments of constant array values to array-sorted symbols (`AsgWFA`),
+  array values, `select`, `store`, comparable array equalities and results of an array sort —
+  `noCompletion'_sound_array_partial`, `getValue'_exact_array_partial` (the answer is a constant `GConst` of
+  the type of `f` with the value of `f`; an array-sorted answer is determined up to the order of its pairs,
+  hence no `constOf`), `getValue'_exact_array_scalar_partial`, `satisfies'_array_partial`,
+  `completion'_exact_array_partial`, `fold_complete_array_partial` (+ `Model.rule_foldA`);
+* fold completeness (scalar): `fold_complete_partial`, `rule_folds`; `completion_defaults`, `defaults_table`.
+
+Hypotheses: `f.wf` (type checker + constructor arities), `inFrag f` (every operator has a rule in the
+simplifier model and meets its guard — **this is why every theorem is `_partial`**: no `pow`, no equality of
+arrays indexed by bit-vectors wider than 8 bits, no arrays indexed by arrays), `evaluable f` / `evaluableA f`
+(quantifier-free, no UF application; `evaluable` also excludes array values), for the primed theorems
+`Build.normal f` and `Subst.ConstKeys f` (the normal form of the `FormulaManager` constructors, on which
+rebuilding is defined; checked by the harness of C05 on every generated formula), the assignment well-formed
+(`AsgOK` / `AsgWF` / `AsgWFA`: symbol ↦ constant of its sort) and, for exactness, total on the free symbols
+or completable (`hmiss`), and `div0 (interpOf σ) f = false` (no `div` node of `f`, taken or not, has a zero
+divisor).
+
+**Not covered** (the stated gap): (a) in the array family — equalities between arrays whose index sort is
+custom/array or whose element sort is an array (`walk_equals` leaves them to the solver and `get_value`
+raises `PysmtTypeError`), bit-vector index sorts wider than 8 bits for array equality, arrays indexed by
+arrays, completion of an unassigned *array-sorted* symbol (`_complete_model` raises "Unhandled type"); the
+in-place model `getValue` has no array theorems; (b) assignments that are not symbol ↦ constant:
+`EagerModel.assignment` is an arbitrary `Dict[FNode, FNode]`. Observed on the code (eager.py:34-52): a
+non-constant *ground* value (`x ↦ 1 + 2`) is folded by the simplifier and behaves like its value; a value
+with free symbols (`x ↦ y + 1`) makes `get_value` raise "Was expecting a constant" (values are not
+substituted into, their symbols are not completed); a non-symbol key (`x + y ↦ 5`) is replaced as a term by
+the most-general substituter while `satisfies` only looks up the free *symbols* (so `get_value(x + y = 5)` is
+True and `satisfies(x + y = 5)` False with `x, y` completed to 0); a function-symbol key is rejected by
+`substitute`. None of this is modelled: the property quantifies over assignments of constants to symbols;
+(c) memoisation of completions in `completed_assignment` is not modelled (the default depends on the sort
+only).
 -/
 namespace PySMT.C02
 open PySMT PySMT.Model PySMT.Simplifier
@@ -145,12 +188,322 @@ theorem completion_exact_partial (σ : Asg) (hσ : AsgOK σ) (f : Term) (τ : Ty
   rw [e, hI] at hc
   simp only [getValue, if_true, h1, e, hI, hc]
 
+/-- **`satisfies` under a partial assignment**: symbols of `f` absent from the assignment are completed
+with the documented defaults (`satisfies` asks `get_value` with completion for every free symbol); if
+every unassigned free symbol has a sort with a default, the model reports that it satisfies `f` iff the
+value of `f` under `interpOf σ` — which gives these defaults to the unassigned symbols — is true, and it
+does not raise. (partial: as above) -/
+theorem satisfies_completion_partial (σ : Asg) (hσ : AsgOK σ) (f : Term) (hwf : f.wf = true)
+    (hev : evaluable f = true) (hfr : inFrag f = true) (hty : f.typeOf = some .bool)
+    (hmiss : ∀ s ∈ f.fv, σ.get s = none → s.params = [] ∧ (defaultOf s.ret).isSome = true)
+    (hd : div0 (interpOf σ) f = false) :
+    ∃ b, satisfies σ f = some b ∧ (b = true ↔ eval (interpOf σ) f = .b true) := by
+  obtain ⟨σ', h1, e, _⟩ := completion_exact σ hσ f .bool hwf hev hfr hty hmiss hd
+  obtain ⟨v, hv⟩ := Val.hasSort_bool (eval_hasSort f hwf _ hty _ (interpOf_wf σ hσ))
+  refine ⟨v, ?_, ?_⟩
+  · simp only [satisfies, h1, e, hv, constOf]
+    cases v <;> rfl
+  · rw [hv]; cases v <;> simp
+
+/-! ## the same theorems for the code's own substitution step
+
+`getValue'` / `satisfies'` (Impl/Model.lean) substitute with `Subst.substMG`, the model of
+`MGSubstituter` proved against its specification in C05: every node that is not replaced is **rebuilt**
+through the `FormulaManager` constructors (`Div(x, c)` → `Times(x, 1/c)`, `Not(Not x)` → `x`, `ToReal(3)` →
+`3.0`, bit-vector payloads recomputed, `Array(...)` re-normalised). This is what `EagerModel.get_value`
+runs (`self.environment.substituter.substitute`), and what the correspondence check compares end to end.
+Additional hypotheses: `Build.normal f` (+ `Subst.ConstKeys f` where array values may occur) — the normal
+form every `FormulaManager`-built formula has and on which rebuilding is defined — and the assignment is
+well-formed binding by binding (`AsgWF`; a `dict` has one binding per key). -/
+
+/-- `get_value(f, model_completion=False)` with the code's substitution step is sound for partial
+assignments (cf. `noCompletion_sound_partial`). (partial: fragment `inFrag`) -/
+theorem noCompletion'_sound_partial (σ : Asg) (hσ : AsgWF σ) (f c : Term) (τ : Ty) (hwf : f.wf = true)
+    (hqf : qf f = true) (hfr : inFrag f = true) (hn : Build.normal f = true) (hck : Subst.ConstKeys f = true)
+    (hty : f.typeOf = some τ) (h : getValue' false σ f = some c) :
+    Build.isConstant c = true ∧ c.typeOf = some τ ∧
+      ∀ I : Interp, I.WF → Extends I σ → div0 I f = false → eval I f = eval I c :=
+  getValue'_sound_aux σ hσ f τ hwf hqf hfr hn hck hty c (by simpa [getValue'] using h)
+
+/-- `get_value(f)` (with completion) with the code's substitution step is sound (cf.
+`getValue_sound_partial`). (partial: fragment `inFrag`) -/
+theorem getValue'_sound_partial (σ : Asg) (hσ : AsgWF σ) (f c : Term) (τ : Ty) (hwf : f.wf = true)
+    (hqf : qf f = true) (hfr : inFrag f = true) (hn : Build.normal f = true) (hck : Subst.ConstKeys f = true)
+    (hty : f.typeOf = some τ) (h : getValue' true σ f = some c) :
+    ∃ σ' : Asg, complete σ f.fv = some σ' ∧ AsgWF σ' ∧ (∀ s v, σ.get s = some v → σ'.get s = some v) ∧
+      Build.isConstant c = true ∧ c.typeOf = some τ ∧
+      ∀ I : Interp, I.WF → Extends I σ' → div0 I f = false → eval I f = eval I c := by
+  simp only [getValue', if_true] at h
+  cases hc : complete σ f.fv with
+  | none => rw [hc] at h; cases h
+  | some σ' =>
+    rw [hc] at h
+    have h1 := complete_wf f.fv σ σ' hσ hc
+    obtain ⟨_, h2⟩ := complete_ok f.fv σ σ' hσ.ok hc
+    obtain ⟨a, b, d⟩ := getValue'_sound_aux σ' h1 f τ hwf hqf hfr hn hck hty c h
+    exact ⟨σ', rfl, h1, h2, a, b, d⟩
+
+/-- **`get_value` is exact, with the code's substitution step**: same statement as
+`getValue_exact_partial` for `getValue'`. (partial: as `getValue_exact_partial`) -/
+theorem getValue'_exact_partial (completion : Bool) (σ : Asg) (hσ : AsgWF σ) (f : Term) (τ : Ty)
+    (hwf : f.wf = true) (hev : evaluable f = true) (hfr : inFrag f = true) (hn : Build.normal f = true)
+    (hty : f.typeOf = some τ) (htot : ∀ s ∈ f.fv, (σ.get s).isSome = true) (hd : div0 (interpOf σ) f = false) :
+    getValue' completion σ f = some (constOf (eval (interpOf σ) f)) :=
+  getValue'_exact completion σ hσ f τ hwf hev hfr hn hty htot hd
+
+/-- the two models of `get_value` agree under the hypotheses of exactness: rebuilding the nodes during
+the substitution does not change the constant returned -/
+theorem getValue'_eq_getValue_partial (completion : Bool) (σ : Asg) (hσ : AsgWF σ) (f : Term) (τ : Ty)
+    (hwf : f.wf = true) (hev : evaluable f = true) (hfr : inFrag f = true) (hn : Build.normal f = true)
+    (hty : f.typeOf = some τ) (htot : ∀ s ∈ f.fv, (σ.get s).isSome = true) (hd : div0 (interpOf σ) f = false) :
+    getValue' completion σ f = getValue completion σ f := by
+  rw [getValue'_exact completion σ hσ f τ hwf hev hfr hn hty htot hd,
+    getValue_exact_partial completion σ hσ.ok f τ hwf hev hfr hty htot hd]
+
+/-- **`satisfies`, with the code's substitution step** (total assignment). (partial: as above) -/
+theorem satisfies'_iff_partial (σ : Asg) (hσ : AsgWF σ) (f : Term) (hwf : f.wf = true) (hev : evaluable f = true)
+    (hfr : inFrag f = true) (hn : Build.normal f = true) (hty : f.typeOf = some .bool)
+    (htot : ∀ s ∈ f.fv, (σ.get s).isSome = true) (hd : div0 (interpOf σ) f = false) :
+    ∃ b, satisfies' σ f = some b ∧ (b = true ↔ eval (interpOf σ) f = .b true) := by
+  obtain ⟨e, _, _⟩ := exact_core' σ hσ f .bool hwf hev hfr hn hty htot hd
+  obtain ⟨v, hv⟩ := Val.hasSort_bool (eval_hasSort f hwf _ hty _ (interpOf_wf σ hσ.ok))
+  refine ⟨v, ?_, ?_⟩
+  · simp only [satisfies', complete_of_total f.fv σ htot, e, hv, constOf]
+    cases v <;> rfl
+  · rw [hv]; cases v <;> simp
+
+/-- **completion, with the code's substitution step**. (partial: as above) -/
+theorem completion'_exact_partial (σ : Asg) (hσ : AsgWF σ) (f : Term) (τ : Ty)
+    (hwf : f.wf = true) (hev : evaluable f = true) (hfr : inFrag f = true) (hn : Build.normal f = true)
+    (hty : f.typeOf = some τ)
+    (hmiss : ∀ s ∈ f.fv, σ.get s = none → s.params = [] ∧ (defaultOf s.ret).isSome = true)
+    (hd : div0 (interpOf σ) f = false) :
+    getValue' true σ f = some (constOf (eval (interpOf σ) f)) ∧
+      ∀ s, σ.get s = none → (interpOf σ).sym s = s.ret.defaultVal := by
+  obtain ⟨σ', h1, e, hc⟩ := completion'_exact σ hσ f τ hwf hev hfr hn hty hmiss hd
+  refine ⟨?_, fun s hs => by simp only [interpOf, hs]⟩
+  rw [e] at hc
+  simp only [getValue', if_true, h1, e, hc]
+
+/-- **`satisfies'` under a partial assignment** (completion with the documented defaults). (partial: as above) -/
+theorem satisfies'_completion_partial (σ : Asg) (hσ : AsgWF σ) (f : Term) (hwf : f.wf = true)
+    (hev : evaluable f = true) (hfr : inFrag f = true) (hn : Build.normal f = true) (hty : f.typeOf = some .bool)
+    (hmiss : ∀ s ∈ f.fv, σ.get s = none → s.params = [] ∧ (defaultOf s.ret).isSome = true)
+    (hd : div0 (interpOf σ) f = false) :
+    ∃ b, satisfies' σ f = some b ∧ (b = true ↔ eval (interpOf σ) f = .b true) := by
+  obtain ⟨σ', h1, e, _⟩ := completion'_exact σ hσ f .bool hwf hev hfr hn hty hmiss hd
+  obtain ⟨v, hv⟩ := Val.hasSort_bool (eval_hasSort f hwf _ hty _ (interpOf_wf σ hσ.ok))
+  refine ⟨v, ?_, ?_⟩
+  · simp only [satisfies', h1, e, hv, constOf]
+    cases v <;> rfl
+  · rw [hv]; cases v <;> simp
+
 /-- the documented defaults -/
 theorem defaults_table (w : Nat) :
     defaultOf .bool = some (Term.bool false) ∧ defaultOf .int = some (Term.int 0) ∧
     defaultOf .real = some (Term.real 0) ∧ defaultOf (.bv w) = some (Term.bvc 0 w) ∧
     Ty.bool.defaultVal = .b false ∧ Ty.int.defaultVal = .i 0 ∧ Ty.real.defaultVal = .r 0 ∧
     (Ty.bv w).defaultVal = .bv w 0 := ⟨rfl, rfl, rfl, rfl, rfl, rfl, rfl, rfl⟩
+
+/-! ## without the per-formula proviso
+
+`interpOf σ` maps `x / 0` to 0, so the soundness of `simp` without proviso
+(`C01.simp_sound_total_partial`) applies. Exactness itself cannot drop the proviso: an *unguarded*
+division by zero is not folded (`3 / x` at `x ↦ 0`: `get_value` raises `PysmtTypeError`, reproduced
+on the code), while a *guarded* one disappears (`ite(r = 0, 0, 1/r)` at `r ↦ 0` evaluates to 0).
+What holds without any condition on divisions: whatever constant is returned is the exact one, and
+a raise implies that some `div` node of `f` has a zero divisor. -/
+
+/-- **no proviso**: for a quantifier-free, UF-free, array-value-free `f` of scalar sort and a total
+type-correct assignment of scalar constants, `get_value` either returns exactly the constant node
+of the value of `f` under `interpOf σ` (divisions by zero, guarded or not, allowed), or raises —
+and it raises only if some `div` node of `f` has a divisor that evaluates to zero.
+(partial: fragment `inFrag`, see header) -/
+theorem getValue_exact_nodiv_partial (completion : Bool) (σ : Asg) (hσ : AsgOK σ) (f : Term) (τ : Ty)
+    (hwf : f.wf = true) (hev : evaluable f = true) (hfr : inFrag f = true) (hty : f.typeOf = some τ)
+    (hna : ∀ i e, τ ≠ .array i e) (htot : ∀ s ∈ f.fv, (σ.get s).isSome = true) :
+    (∀ c, getValue completion σ f = some c → c = constOf (eval (interpOf σ) f)) ∧
+    (getValue completion σ f = none → div0 (interpOf σ) f = true) := by
+  have hcomp : (if completion then complete σ f.fv else some σ) = some σ := by
+    cases completion
+    · rfl
+    · simp only [if_true]; exact complete_of_total f.fv σ htot
+  constructor
+  · intro c h
+    simp only [getValue, hcomp] at h
+    split at h
+    · next hc =>
+      cases h
+      exact const_of_simp_subst σ hσ f τ hwf hev hfr hty hc hna
+    · cases h
+  · intro h
+    cases hd : div0 (interpOf σ) f with
+    | true => rfl
+    | false =>
+      rw [getValue_exact_partial completion σ hσ f τ hwf hev hfr hty htot hd] at h
+      cases h
+
+/-- **no proviso, `satisfies`**: if the model reports that it satisfies the Boolean formula `f`, the
+value of `f` under `interpOf σ` is true — whatever divisions by zero `f` contains. (The converse needs
+the proviso, `satisfies_iff_partial`: `0 ≤ 3 / x` at `x ↦ 0` is true under `interpOf σ` but is not
+folded, and `satisfies` answers False.) (partial: fragment `inFrag`) -/
+theorem satisfies_sound_nodiv_partial (σ : Asg) (hσ : AsgOK σ) (f : Term) (hwf : f.wf = true)
+    (hev : evaluable f = true) (hfr : inFrag f = true) (hty : f.typeOf = some .bool)
+    (htot : ∀ s ∈ f.fv, (σ.get s).isSome = true) (h : satisfies σ f = some true) :
+    eval (interpOf σ) f = .b true := by
+  simp only [satisfies, complete_of_total f.fv σ htot, Option.some.injEq] at h
+  have e := (simp_subst_eval σ hσ f .bool hwf hev hfr hty).1
+  rw [← e, isTrue_iff.mp h]
+  exact eval_boolc _ true
+
+/-- **no proviso, completion**: the same with missing symbols completed by the documented defaults
+(`interpOf σ` already gives them the default values). (partial: fragment `inFrag`) -/
+theorem completion_exact_nodiv_partial (σ : Asg) (hσ : AsgOK σ) (f : Term) (τ : Ty)
+    (hwf : f.wf = true) (hev : evaluable f = true) (hfr : inFrag f = true) (hty : f.typeOf = some τ)
+    (hna : ∀ i e, τ ≠ .array i e)
+    (hmiss : ∀ s ∈ f.fv, σ.get s = none → s.params = [] ∧ (defaultOf s.ret).isSome = true) :
+    (∀ c, getValue true σ f = some c → c = constOf (eval (interpOf σ) f)) ∧
+    (getValue true σ f = none → div0 (interpOf σ) f = true) := by
+  obtain ⟨σ', h1, h2, h3, h4, h5⟩ := complete_spec f.fv σ hmiss
+  obtain ⟨hσ', _⟩ := complete_ok f.fv σ σ' hσ h1
+  have hI : interpOf σ' = interpOf σ := interpOf_complete σ σ' f.fv h2 h3 h5
+  have key := getValue_exact_nodiv_partial false σ' hσ' f τ hwf hev hfr hty hna h4
+  have hgv : getValue true σ f = getValue false σ' f := completion_defaults σ σ' f h1
+  rw [hgv, ← hI]
+  exact key
+
+/-- **no proviso, the code's substitution step**: the counterpart of `getValue_exact_nodiv_partial` for
+`getValue'`. (partial: fragment `inFrag`) -/
+theorem getValue'_exact_nodiv_partial (completion : Bool) (σ : Asg) (hσ : AsgWF σ) (f : Term) (τ : Ty)
+    (hwf : f.wf = true) (hev : evaluable f = true) (hfr : inFrag f = true) (hn : Build.normal f = true)
+    (hty : f.typeOf = some τ) (hτ : τ.scalar = true) (htot : ∀ s ∈ f.fv, (σ.get s).isSome = true) :
+    (∀ c, getValue' completion σ f = some c → c = constOf (eval (interpOf σ) f)) ∧
+    (getValue' completion σ f = none → div0 (interpOf σ) f = true) := by
+  have hcomp : (if completion then complete σ f.fv else some σ) = some σ := by
+    cases completion
+    · rfl
+    · simp only [if_true]; exact complete_of_total f.fv σ htot
+  constructor
+  · intro c h
+    simp only [getValue', hcomp] at h
+    split at h
+    · next hc =>
+      cases h
+      exact const_of_simp_substAsg σ hσ f τ hwf (evaluable_qf f hev) hfr hn (constKeys_evaluable f hev) hty hc hτ
+    · cases h
+  · intro h
+    cases hd : div0 (interpOf σ) f with
+    | true => rfl
+    | false =>
+      rw [getValue'_exact completion σ hσ f τ hwf hev hfr hn hty htot hd] at h
+      cases h
+
+/-- **no proviso, `satisfies'`**: if the model reports that it satisfies `f`, the value of `f` under
+`interpOf σ` is true, whatever divisions by zero `f` contains. (partial: fragment `inFrag`) -/
+theorem satisfies'_sound_nodiv_partial (σ : Asg) (hσ : AsgWF σ) (f : Term) (hwf : f.wf = true)
+    (hev : evaluable f = true) (hfr : inFrag f = true) (hn : Build.normal f = true) (hty : f.typeOf = some .bool)
+    (htot : ∀ s ∈ f.fv, (σ.get s).isSome = true) (h : satisfies' σ f = some true) :
+    eval (interpOf σ) f = .b true := by
+  simp only [satisfies', complete_of_total f.fv σ htot, Option.some.injEq] at h
+  have e := (simp_substAsg_eval σ hσ f .bool hwf (evaluable_qf f hev) hfr hn (constKeys_evaluable f hev) hty).1
+  rw [← e, isTrue_iff.mp h]
+  exact eval_boolc _ true
+
+/-- **no proviso, partial assignments, no completion** (`get_value(f, model_completion=False)` with the
+code's substitution step): a returned constant is the value of `f` under every well-formed interpretation
+that extends the assignment and whose division-by-zero functions map 0 to 0 — no condition on the
+divisions of `f`. Array values may occur in `f` (`qf`, not `evaluable`). (partial: fragment `inFrag`) -/
+theorem noCompletion'_sound_nodiv_partial (σ : Asg) (hσ : AsgWF σ) (f c : Term) (τ : Ty) (hwf : f.wf = true)
+    (hqf : qf f = true) (hfr : inFrag f = true) (hn : Build.normal f = true) (hck : Subst.ConstKeys f = true)
+    (hty : f.typeOf = some τ) (h : getValue' false σ f = some c) :
+    ∀ I : Interp, I.WF → I.div0r 0 = 0 → I.div0i 0 = 0 → Extends I σ → eval I f = eval I c :=
+  fun I hI h0r h0i hext =>
+    getValue'_sound_total_aux σ hσ f τ hwf hqf hfr hn hck hty c (by simpa [getValue'] using h) I hI ⟨h0r, h0i⟩ hext
+
+/-! ## the array family: array-valued assignments, array values, `select`, `store`, array results
+
+`GConst c` (Proofs/C02Array.lean): `c` is a constant in the sense of `FNode.is_constant()` — a scalar
+constant node or an array value all of whose children are such constants — with the invariant of
+`FormulaManager.Array` (keys pairwise distinct scalar constant nodes). `AsgWFA σ`: every binding maps a symbol
+to such a constant of its sort (array-sorted symbols get constant array values). `evaluableA f`:
+quantifier-free, no UF application, and every equality between array-sorted terms is one `walk_equals`
+compares (index sort Bool / BV / Int / Real / String, element sort not an array: `eqOK`; for the other array
+sorts `get_value` raises on the equality of two distinct constant arrays). The result `c` of an array sort is
+determined up to the order of its (key, value) pairs (`FormulaManager.Array` orders them by `id()`); the
+theorems therefore characterise it by its value instead of `constOf`. -/
+
+/-- **soundness with arrays** (`get_value(f, model_completion=False)`, the code's substitution step): for an
+assignment of constants of every sort — possibly partial — a returned `c` is a constant of the type of `f`
+and the value of `f` under every well-formed interpretation that extends the assignment, provided no division
+by zero is evaluated or the division-by-zero functions map 0 to 0. `f` may contain array values, `select`,
+`store` and have an array sort. (partial: fragment `inFrag`) -/
+theorem noCompletion'_sound_array_partial (σ : Asg) (hσ : AsgWFA σ) (f c : Term) (τ : Ty) (hwf : f.wf = true)
+    (hqf : qf f = true) (hfr : inFrag f = true) (hn : Build.normal f = true) (hck : Subst.ConstKeys f = true)
+    (hty : f.typeOf = some τ) (h : getValue' false σ f = some c) :
+    Build.isConstant c = true ∧ c.typeOf = some τ ∧
+      (∀ I : Interp, I.WF → Extends I σ → div0 I f = false → eval I f = eval I c) ∧
+      (∀ I : Interp, I.WF → I.div0r 0 = 0 ∧ I.div0i 0 = 0 → Extends I σ → eval I f = eval I c) :=
+  getValue'_soundA σ hσ f τ hwf hqf hfr hn hck hty c (by simpa [getValue'] using h)
+
+/-- **`get_value` is exact, arrays included**: for an `evaluableA` formula of any sort (Array included) in the
+constructors' normal form, an assignment of constants of every sort that is total on the free symbols of `f`,
+and no division by zero evaluated, `get_value` (either completion mode) answers, the answer is a constant
+(`GConst`) of the type of `f`, and it has the value of `f`. For a scalar sort this is `getValue'_exact_partial`
+(the answer is `constOf` of the value). (partial: fragment `inFrag` — array equality over bit-vector indices
+wider than 8 bits and arrays indexed by arrays are outside) -/
+theorem getValue'_exact_array_partial (completion : Bool) (σ : Asg) (hσ : AsgWFA σ) (f : Term) (τ : Ty)
+    (hwf : f.wf = true) (hev : evaluableA f = true) (hfr : inFrag f = true) (hn : Build.normal f = true)
+    (hck : Subst.ConstKeys f = true) (hty : f.typeOf = some τ)
+    (htot : ∀ s ∈ f.fv, (σ.get s).isSome = true) (hd : div0 (interpOf σ) f = false) :
+    ∃ c, getValue' completion σ f = some c ∧ GConst c = true ∧ c.wf = true ∧ c.typeOf = some τ ∧
+      eval (interpOf σ) c = eval (interpOf σ) f :=
+  getValue'_exactA completion σ hσ f τ hwf hev hfr hn hck hty htot hd
+
+/-- … and a constant of a scalar sort is the constant node of its value -/
+theorem getValue'_exact_array_scalar_partial (completion : Bool) (σ : Asg) (hσ : AsgWFA σ) (f : Term) (τ : Ty)
+    (hwf : f.wf = true) (hev : evaluableA f = true) (hfr : inFrag f = true) (hn : Build.normal f = true)
+    (hck : Subst.ConstKeys f = true) (hty : f.typeOf = some τ) (hτ : τ.scalar = true)
+    (htot : ∀ s ∈ f.fv, (σ.get s).isSome = true) (hd : div0 (interpOf σ) f = false) :
+    getValue' completion σ f = some (constOf (eval (interpOf σ) f)) := by
+  obtain ⟨c, h1, h2, h3, h4, h5⟩ := getValue'_exactA completion σ hσ f τ hwf hev hfr hn hck hty htot hd
+  rw [h1, ← h5, ← const_constOf c h3 (gconst_scalar h2 h4 hτ) _]
+
+/-- **`satisfies` with arrays**: a Boolean formula over arrays (`select`, `store`, array values, comparable
+array equalities) and an assignment total on its free symbols. (partial: as above) -/
+theorem satisfies'_array_partial (σ : Asg) (hσ : AsgWFA σ) (f : Term) (hwf : f.wf = true)
+    (hev : evaluableA f = true) (hfr : inFrag f = true) (hn : Build.normal f = true)
+    (hck : Subst.ConstKeys f = true) (hty : f.typeOf = some .bool)
+    (htot : ∀ s ∈ f.fv, (σ.get s).isSome = true) (hd : div0 (interpOf σ) f = false) :
+    ∃ b, satisfies' σ f = some b ∧ (b = true ↔ eval (interpOf σ) f = .b true) := by
+  obtain ⟨hc, sw, sty, se⟩ := exact_coreA σ hσ f .bool hwf hev hfr hn hck hty htot hd
+  obtain ⟨v, hv⟩ := const_bool sw (gconst_scalar hc sty rfl) sty
+  refine ⟨v, ?_, ?_⟩
+  · simp only [satisfies', complete_of_total f.fv σ htot, hv]
+    cases v <;> rfl
+  · rw [← se, hv, eval_boolc]; cases v <;> simp
+
+/-- **completion with arrays**: unassigned free symbols of a sort with a documented default (Bool, Int, Real,
+BV; an unassigned array-sorted symbol makes `get_value` raise "Unhandled type") behave as the defaults.
+(partial: as above) -/
+theorem completion'_exact_array_partial (σ : Asg) (hσ : AsgWFA σ) (f : Term) (τ : Ty) (hwf : f.wf = true)
+    (hev : evaluableA f = true) (hfr : inFrag f = true) (hn : Build.normal f = true)
+    (hck : Subst.ConstKeys f = true) (hty : f.typeOf = some τ)
+    (hmiss : ∀ s ∈ f.fv, σ.get s = none → s.params = [] ∧ (defaultOf s.ret).isSome = true)
+    (hd : div0 (interpOf σ) f = false) :
+    ∃ c, getValue' true σ f = some c ∧ GConst c = true ∧ c.wf = true ∧ c.typeOf = some τ ∧
+      eval (interpOf σ) c = eval (interpOf σ) f := by
+  obtain ⟨σ', c, h1, h2, h3, h4, h5, h6⟩ := completion'_exactA σ hσ f τ hwf hev hfr hn hck hty hmiss hd
+  refine ⟨c, ?_, h3, h4, h5, h6⟩
+  simp only [getValue', if_true, h1, h2, gconst_isConstant _ h3]
+
+/-- **fold completeness with arrays**: a ground term (`groundA`: array values with pairwise distinct constant
+keys allowed) that evaluates no division by zero simplifies to a constant (`GConst`). Rule level:
+`Model.rule_foldA` — every rule maps `GConst` arguments to a `GConst`, `select` / `store` / `arrayValue`
+included. (partial: fragment `inFrag`) -/
+theorem fold_complete_array_partial (t : Term) (τ : Ty) (hwf : t.wf = true) (hfr : inFrag t = true)
+    (hty : t.typeOf = some τ) (hg : groundA t = true) (I : Interp) (hI : I.WF) (hd : div0 I t = false) :
+    GConst (simp t) = true :=
+  foldA t τ hwf hfr hty hg I hI hd
 
 /-! ## non-vacuity -/
 
@@ -209,6 +562,72 @@ example : ∃ (σ : Asg) (f : Term), AsgOK σ ∧ f.wf = true ∧ evaluable f = 
   · rw [div0_plain _ .le _ _ rfl (by simp)]
     simp only [List.any_cons, List.any_nil, Bool.or_false, div0_int]
     show div0 _ (Term.node .symbol [] (.sym xs)) = false
+    rw [div0_plain _ .symbol _ _ rfl (by simp)]
+    rfl
+
+/-- … and so are the additional hypotheses of the primed theorems: the assignment `x ↦ 3` is well-formed
+binding by binding and `x ≤ 3` is in the constructors' normal form (and has constant array keys) -/
+example : AsgWF [(Sym.var "x" .int, Term.int 3)] ∧
+    Build.normal (.node .le [Term.var "x" .int, Term.int 3] .none) = true ∧
+    Subst.ConstKeys (.node .le [Term.var "x" .int, Term.int 3] .none) = true := by
+  refine ⟨?_, ?_, ?_⟩
+  · intro kv hkv
+    simp only [List.mem_singleton] at hkv
+    subst hkv
+    exact ⟨rfl, wf_int 3, typeOf_int 3, rfl⟩
+  · simp [Build.normal, Build.normalNode, Build.isBvSameWidthOp, Term.var, Term.sym, Term.int]
+  · simp [Subst.ConstKeys, Term.var, Term.sym, Term.int]
+
+/-- the hypotheses of the array theorems are satisfiable: `Select(a, 1)` under `a ↦ Array(Int, 0, {1: 5})` -/
+example : ∃ (σ : Asg) (f : Term), AsgWFA σ ∧ f.wf = true ∧ evaluableA f = true ∧ inFrag f = true ∧
+    Build.normal f = true ∧ Subst.ConstKeys f = true ∧ f.typeOf = some .int ∧
+    (∀ s ∈ f.fv, (σ.get s).isSome = true) ∧ div0 (interpOf σ) f = false := by
+  let aty : Ty := .array .int .int
+  let as : Sym := Sym.var "a" aty
+  let a : Term := Term.var "a" aty
+  let av : Term := .node .arrayValue [Term.int 0, Term.int 1, Term.int 5] (.ty .int)
+  let f : Term := .node .arraySelect [a, Term.int 1] .none
+  let σ : Asg := [(as, av)]
+  obtain ⟨wa, ta, fa⟩ : a.wf = true ∧ a.typeOf = some aty ∧ inFrag a = true := var_ok "a" aty
+  have fint : ∀ n, inFrag (Term.int n) = true := fun n => frag_node (e := Simp.keep .intConst) rfl rfl (by simp)
+  have tav : av.typeOf = some aty := by
+    show (Term.node .arrayValue [Term.int 0, Term.int 1, Term.int 5] (.ty .int)).typeOf = _
+    rw [typeOf_node]; simp only [List.map_cons, List.map_nil, typeOf_int]; rfl
+  have wav : av.wf = true :=
+    wf_mk' (by intro x hx; simp at hx; rcases hx with rfl | rfl | rfl <;> exact wf_int _) rfl tav
+  have fav : inFrag av = true :=
+    frag_node (e := { rule := Simp.ArrayRules.walkArrayValue, guard := Simp.ArrayRules.valueGuard }) rfl rfl
+      (by intro x hx; simp at hx; rcases hx with rfl | rfl | rfl <;> exact fint _)
+  have gav : GConst av = true := by
+    simp [av, GConst, Build.pairs, Simp.ArrayRules.noDup, Term.int, Op.isConstant, Term.op]
+  have hty : f.typeOf = some .int := by
+    show (Term.node .arraySelect [a, Term.int 1] .none).typeOf = _
+    rw [typeOf_node]; simp only [List.map_cons, List.map_nil, typeOf_int, ta]; rfl
+  have hmem : ∀ x ∈ [a, Term.int 1], x = a ∨ x = Term.int 1 := by intro x hx; simpa using hx
+  refine ⟨σ, f, ?_, ?_, ?_, ?_, ?_, ?_, hty, ?_, ?_⟩
+  · intro kv hkv
+    simp only [σ, List.mem_singleton] at hkv
+    subst hkv
+    exact ⟨rfl, wav, tav, gav, fav⟩
+  · exact wf_mk' (by intro x hx; rcases hmem x hx with rfl | rfl; exact wa; exact wf_int 1) rfl hty
+  · simp [f, a, evaluableA, Term.var, Term.sym, Term.int, Op.isQuantifier]
+  · refine frag_node (e := { rule := Simp.ArrayRules.walkArraySelect, guard := Simp.ArrayRules.arrayGuard }) rfl ?_ ?_
+    · simp only [List.map_cons, List.map_nil, ta]; rfl
+    · intro x hx; rcases hmem x hx with rfl | rfl; exact fa; exact fint _
+  · simp [f, a, Build.normal, Build.normalNode, Build.isBvSameWidthOp, Term.var, Term.sym, Term.int]
+  · simp [f, a, Subst.ConstKeys, Term.var, Term.sym, Term.int]
+  · intro s hs
+    obtain ⟨x, hx, hs⟩ := (mem_fv_plain (by simp) (by simp) rfl).mp hs
+    rcases hmem x hx with rfl | rfl
+    · have : s = as := by
+        have e : a.fv = [as] := by show (Term.node .symbol [] (.sym as)).fv = _; rw [fv_symbol]
+        rw [e] at hs; simpa using hs
+      subst this
+      simp [σ, Asg.get]
+    · simp at hs
+  · rw [div0_plain _ .arraySelect _ _ rfl (by simp)]
+    simp only [List.any_cons, List.any_nil, Bool.or_false, div0_int]
+    show div0 _ (Term.node .symbol [] (.sym as)) = false
     rw [div0_plain _ .symbol _ _ rfl (by simp)]
     rfl
 
